@@ -1,7 +1,7 @@
 (** * Fut/BridgeProofs.v — the plan [plan_of] builds from C01's world denotes C01's reference data. *)
 From Coq Require Import List NArith ZArith Bool Lia.
 From ApiFu Require Import Base.Sexp Fut.Plan Fut.ExecSync Fut.Denote Fut.FutSpec Fut.BridgeC01.
-From ApiFu Require Exe.ExecData Exe.ExecSpec.
+From ApiFu Require ExeA.ArgData ExeA.ArgArgs ExeA.ArgSpec Val.Values.
 Import ListNotations.
 
 Section BridgeProofs.
@@ -92,6 +92,9 @@ Section BridgeProofs.
       apply andb_true_iff in R. destruct R as [_ R]. now right.
   Qed.
 
+  Lemma rel_throw0 ty e : Rel ty (X.s_throw e) (Some VBad).
+  Proof. unfold Rel, pos_fails. reflexivity. Qed.
+
   (** ** s_all: a list value *)
   Lemma all_items inn (xs : list X.sout) (vs : list vplan) :
     Forall2 (PRel inn) xs vs ->
@@ -166,6 +169,16 @@ Section BridgeProofs.
     (forall a, Forall2 R (f a) (g a)) -> Forall2 R (flat_map f l) (flat_map g l).
   Proof. intros H. induction l as [|a l IH]; simpl; [constructor|]. apply Forall2_app; auto. Qed.
 
+  (** the argument step in front of the resolvers *)
+  Lemma with_args_rel children pchildren ot :
+    (forall n, CRel (children n) (pchildren n)) ->
+    forall n, CRel (X.s_with_args S Doc children ot n) (p_with_args S Doc pchildren ot n).
+  Proof.
+    intros C n ty fields path. unfold X.s_with_args, p_with_args.
+    destruct fields as [|f fs]; [apply rel_throw0|].
+    destruct (ArgArgs.coerce_field_args S Doc ot f); [apply C | apply rel_throw0 | apply rel_throw0].
+  Qed.
+
   Lemma selection_set_rel children pchildren ot sels path :
     (forall n, CRel (children n) (pchildren n)) ->
     match X.so_val (X.s_selection_set S Doc E fuel children ot sels path) with
@@ -174,11 +187,13 @@ Section BridgeProofs.
                 tr j = jv (p_selection_set code S Doc E fuel pchildren ot sels)
     end.
   Proof.
-    intros C. unfold X.s_selection_set, p_selection_set.
+    intros C0. pose proof (with_args_rel children pchildren ot C0) as C.
+    unfold X.s_selection_set, X.s_selection_set_raw, p_selection_set.
     destruct (X.s_collect S Doc E fuel ot sels) as [groups|]; [|reflexivity].
-    pose proof (all_entries _ _ (Forall2_flat_map ERel _ _ groups (fun kf => entry_rel children pchildren ot path kf C))) as A.
+    pose proof (all_entries _ _ (Forall2_flat_map ERel _ _ groups
+                  (fun kf => entry_rel (X.s_with_args S Doc children ot) (p_with_args S Doc pchildren ot) ot path kf C))) as A.
     unfold X.s_all. rewrite fails_inner_obj, jv_obj.
-    destruct (X.vals_of (map snd (flat_map (X.s_entry S children ot path) groups))) as [js|]; simpl; exact A.
+    destruct (X.vals_of (map snd (flat_map (X.s_entry S (X.s_with_args S Doc children ot) ot path) groups))) as [js|]; simpl; exact A.
   Qed.
 
   (** ** list items *)
